@@ -342,6 +342,27 @@ pub(crate) struct Dispatcher<T: Transport, E: UtpEnvironment> {
     next_connection_id: SeqNr,
 }
 
+// Verification hook: one event per change of the dispatcher's tables, with the resulting sizes.
+#[cfg(librqbit_utp_verif)]
+impl<T: Transport, E: UtpEnvironment> Dispatcher<T, E> {
+    fn verif_tab(&self, what: &'static str, remote: SocketAddr, cid: SeqNr) {
+        verif_event!(
+            self.env,
+            "tab",
+            local = self.socket.bind_addr(),
+            what = what,
+            remote = remote,
+            cid = cid,
+            streams = self.streams.len(),
+            connecting = self.connecting.values().map(|c| c.len).sum::<usize>(),
+            syns = self.accept_queue.syns.len(),
+            acceptor_ready = self.accept_queue.next_available_acceptor.is_some(),
+            limit = self.socket.opts.max_active_streams.get(),
+            next_cid = self.next_connection_id,
+        );
+    }
+}
+
 impl<T: Transport, E: UtpEnvironment> Dispatcher<T, E> {
     pub(crate) async fn run_forever(mut self) -> crate::Result<()> {
         let mut read_buf = [0u8; 16384];
@@ -430,6 +451,8 @@ impl<T: Transport, E: UtpEnvironment> Dispatcher<T, E> {
                 if self.streams_full() {
                     debug!(?addr, "too many connections, dropping connect request");
                     let _ = sender.tx.send(Err(Error::TooManyActiveConnections));
+                    #[cfg(librqbit_utp_verif)]
+                    self.verif_tab("connect_refused_full", addr, self.next_connection_id);
                     return;
                 }
                 let conn_id = self.get_next_free_conn_id(addr);
@@ -471,9 +494,13 @@ impl<T: Transport, E: UtpEnvironment> Dispatcher<T, E> {
                 };
                 if self.connecting.entry(addr).or_default().insert(c) {
                     self.next_connection_id += 2;
+                    #[cfg(librqbit_utp_verif)]
+                    self.verif_tab("connecting_insert", addr, conn_id);
                 } else {
                     // This is super rare, can be warn.
                     warn!("too many concurrent connectins to {addr}");
+                    #[cfg(librqbit_utp_verif)]
+                    self.verif_tab("connecting_full", addr, conn_id);
                 }
             }
             ControlRequest::ConnectDropped(addr, token) => {
@@ -485,10 +512,14 @@ impl<T: Transport, E: UtpEnvironment> Dispatcher<T, E> {
                     }
                     Entry::Vacant(_) => {}
                 };
+                #[cfg(librqbit_utp_verif)]
+                self.verif_tab("connect_dropped", addr, 0.into());
             }
             ControlRequest::Shutdown(key) => {
                 trace!(?key, "removing stream");
                 self.streams.remove(&key);
+                #[cfg(librqbit_utp_verif)]
+                self.verif_tab("stream_remove", key.0, key.1);
             }
         }
     }
@@ -538,9 +569,15 @@ impl<T: Transport, E: UtpEnvironment> Dispatcher<T, E> {
             .with_parent_span(conn.requester.created_span.clone());
 
         let recv_key = (addr, msg.header.connection_id);
+        #[cfg(librqbit_utp_verif)]
+        self.verif_tab("connecting_remove", addr, msg.header.connection_id);
         if self.streams.insert(recv_key, tx).is_some() {
             warn!(key=?recv_key, "bug: a stream already existed with key. It should have been checked beforehand.");
+            #[cfg(librqbit_utp_verif)]
+            self.verif_tab("stream_overwrite", recv_key.0, recv_key.1);
         }
+        #[cfg(librqbit_utp_verif)]
+        self.verif_tab("stream_insert_out", recv_key.0, recv_key.1);
 
         let stream = UtpStreamStarter::new(&self.socket, addr, rx, args).start();
         if conn.requester.tx.send(Ok(stream)).is_ok() {
@@ -548,6 +585,8 @@ impl<T: Transport, E: UtpEnvironment> Dispatcher<T, E> {
         } else {
             debug!(?recv_key, "connecting receiver is dead. dropping");
             self.streams.remove(&recv_key);
+            #[cfg(librqbit_utp_verif)]
+            self.verif_tab("stream_remove", recv_key.0, recv_key.1);
         }
 
         Ok(())
@@ -575,14 +614,27 @@ impl<T: Transport, E: UtpEnvironment> Dispatcher<T, E> {
         let starter = UtpStreamStarter::new(&self.socket, syn.remote, rx, args);
 
         self.streams.insert(recv_key, tx);
+        #[cfg(librqbit_utp_verif)]
+        self.verif_tab("stream_insert_in", recv_key.0, recv_key.1);
         match accept.tx.send(starter) {
             Ok(()) => {
                 trace!("created stream and passed to acceptor");
+                #[cfg(librqbit_utp_verif)]
+                verif_event!(
+                    self.env,
+                    "syn_matched",
+                    local = self.socket.bind_addr(),
+                    remote = recv_key.0,
+                    cid = recv_key.1,
+                    syn_seq = syn.header.seq_nr,
+                );
                 MatchSynWithAccept::Matched
             }
             Err(starter) => {
                 starter.disarm();
                 self.streams.remove(&recv_key);
+                #[cfg(librqbit_utp_verif)]
+                self.verif_tab("stream_remove", recv_key.0, recv_key.1);
                 MatchSynWithAccept::ReceiverDead(syn)
             }
         }
@@ -614,6 +666,8 @@ impl<T: Transport, E: UtpEnvironment> Dispatcher<T, E> {
                 MatchSynWithAccept::Matched => return Ok(()),
                 MatchSynWithAccept::SynInvalid(sender) => {
                     self.accept_queue.next_available_acceptor = Some(sender);
+                    #[cfg(librqbit_utp_verif)]
+                    self.verif_tab("syn_clash", remote, 0.into());
                     return Ok(());
                 }
                 MatchSynWithAccept::ReceiverDead(s) => syn = s,
@@ -624,11 +678,21 @@ impl<T: Transport, E: UtpEnvironment> Dispatcher<T, E> {
                 }
             }
         }
+        #[cfg(librqbit_utp_verif)]
+        let verif_syn = (syn.remote, syn.header.connection_id + 1);
         match self.accept_queue.try_cache_syn(syn) {
+            #[cfg(librqbit_utp_verif)]
+            None => {
+                self.verif_tab("syn_cached", verif_syn.0, verif_syn.1);
+                Ok(())
+            }
+            #[cfg(not(librqbit_utp_verif))]
             None => Ok(()),
             Some(syn) => {
                 debug!("dropping SYN, no more space to cache them and no acceptors available");
                 METRICS.cant_accept_syn.increment(1);
+                #[cfg(librqbit_utp_verif)]
+                self.verif_tab("syn_refused", verif_syn.0, verif_syn.1);
                 self.try_send_rst(syn).await;
                 Ok(())
             }
@@ -645,6 +709,18 @@ impl<T: Transport, E: UtpEnvironment> Dispatcher<T, E> {
     ))]
     async fn on_recv(&mut self, addr: SocketAddr, message: UtpMessage) -> crate::Result<()> {
         let key = (addr, message.header.connection_id);
+        #[cfg(librqbit_utp_verif)]
+        verif_event!(
+            self.env,
+            "route",
+            local = self.socket.bind_addr(),
+            remote = addr,
+            cid = message.header.connection_id,
+            t = message.header.htype as u8,
+            seq = message.header.seq_nr,
+            ack = message.header.ack_nr,
+            found = self.streams.contains_key(&key),
+        );
 
         if let Some(tx) = self.streams.get(&key) {
             if tx.send(message).is_err() {
@@ -653,6 +729,8 @@ impl<T: Transport, E: UtpEnvironment> Dispatcher<T, E> {
                     "stream dead, but wasn't cleaned up yet, this is probably a race"
                 );
                 self.streams.remove(&key);
+                #[cfg(librqbit_utp_verif)]
+                self.verif_tab("stream_remove_dead", key.0, key.1);
             }
             return Ok(());
         }
